@@ -563,6 +563,19 @@ class StandardObserver:
 
     def after_evals(self, n):
         self.evals_here += int(n)
+        sae = getattr(self, "signal_at_eval", None)
+        if sae and not getattr(self, "_signal_sent", False) and self.evals_here >= int(sae[0]):
+            # a termination signal delivered while a likelihood call returns (inside a pool population when
+            # the sampler is in its flow phase): the installed handler is called as the interpreter would
+            import signal as _signal
+
+            self._signal_sent = True
+            signum = int(sae[1])
+            fp = getattr(self.ns, "_flow_proposal", None) if self.ns is not None else None
+            self.em.emit("signal", signum=signum, at_eval=int(self.evals_here), idx=-1, file="<likelihood>", lineno=0,
+                         func="log_likelihood", region="population" if getattr(fp, "populating", False) else "other",
+                         populating=bool(getattr(fp, "populating", False)))
+            _signal.getsignal(signum)(signum, None)
         if self.kill_at_eval is not None and self.evals_here >= self.kill_at_eval:
             self.em.emit("kill", evals_here=self.evals_here,
                          evals=int(self.model.likelihood_evaluations))
@@ -596,6 +609,8 @@ class StandardObserver:
             parts[name + "_train"] = int(getattr(prop, "training_count", 0))
         fp = ns._flow_proposal
         parts["flow_popcount"] = int(getattr(fp, "populated_count", 0))
+        # interrupted inside a population: tells the resumed sampler not to retrain
+        parts["flow_populating"] = bool(getattr(fp, "populating", False))
         rep = getattr(fp, "_reparameterisation", None)
         parts["reparam"] = digest31(_reparam_repr(rep))
         parts["acc"] = digest31(repr((ns.accepted, ns.rejected, float(ns.block_acceptance), int(ns.block_iteration),
